@@ -55,6 +55,27 @@ def gateRelay (bs : Bytes) : Gate :=
     else if verify false S.RelayMessage bs then .strict id else .tooManyFields
   else .malformed
 
+/-! ## the extension slot -/
+
+/-- `BlockReader::extra_field(index)` / `CompactBlock::extra_field(index)` for a table with `n`
+declared fields: which header positions are read and which slice is taken -/
+def extraFieldAccess (n index : Nat) (bs : Bytes) : Option Access :=
+  let count := fieldCount bs - n
+  if count > index then
+    let i := (1 + n + index) * 4
+    if count = index + 1 then some ⟨[0, 4, i], num (bs.drop i), bs.length⟩
+    else some ⟨[0, 4, i, i + 4], num (bs.drop i), num (bs.drop (i + 4))⟩
+  else none
+
+/-- `extension()` (after the F16 repair): `None` unless the first extra field is a strictly valid
+`Bytes`; never fails -/
+def extensionOf (n : Nat) (bs : Bytes) : Option Bytes :=
+  match extraFieldAccess n 0 bs with
+  | some a =>
+    let d := slice bs a.start a.stop
+    if verify false S.Bytes d then some d else none
+  | none => none
+
 /-! ## compact blocks -/
 
 structure Tx where
@@ -158,6 +179,8 @@ inductive Result
   | collided
   | unmatched
   | invalidUncle
+  /-- the rebuilt block is not the block the compact header commits to (F19 repair) -/
+  | invalidHeader
 deriving Repr, DecidableEq
 
 def allSome {α : Type} : List (Option α) → Option (List α)
@@ -198,6 +221,7 @@ def reconstruct (h : Hashes) (cb : CB) (received : List Tx) (pool : Nat → Opti
       let hd := resetHeader h cb.header txs cb.proposals uncles cb.extension
       if cb.header.txRoot ≠ hd.txRoot then
         if cb.shortIds.isEmpty ∨ cb.shortIds.length = received.length then .unmatched else .collided
+      else if hd ≠ cb.header then .invalidHeader
       else .block { header := hd, uncles := uncles, txs := txs, proposals := cb.proposals, extension := cb.extension }
     | _, _ => .missing (noneIndexes slots 0) missingUncles
 
